@@ -168,6 +168,17 @@ Theorem C03_keywords_slice_contiguous_once_admitted : forall l i j, (i <= j <= c
 Proof. exact later_keywords_contiguous. Qed.
 Print Assumptions C03_keywords_slice_contiguous_once_admitted.
 
+Theorem C03_args_guard_passes_iff_everything_touched_is_in_front_of_the_keywords : forall l start stop has_code,
+  start <= stop <= count_a l -> 0 < count_k l ->
+  (args_guard_refuses l start stop has_code = false <->
+   stop <= lead_a l /\ (has_code = true -> start = stop -> stop < count_a l -> stop < lead_a l)).
+Proof. exact args_guard_passes_iff_in_front_of_keywords. Qed.
+Print Assumptions C03_args_guard_passes_iff_everything_touched_is_in_front_of_the_keywords.
+
+Theorem C03_args_in_front_of_the_keywords_have_their_merged_index : forall l i, i < lead_a l -> arg_pos l i = Some i /\ nth_error l i = Some A.
+Proof. exact args_in_front_are_merged_prefix. Qed.
+Print Assumptions C03_args_in_front_of_the_keywords_have_their_merged_index.
+
 (* non-vacuity: a concrete view with a fixed stop, healed after an external shrink, then edited *)
 Example C03_nonvacuous :
   let s := {| fld := [10; 11; 12; 13; 14]%Z; vstart := 1; vstop := Some 4 |} in
